@@ -512,22 +512,18 @@ class Session:
         for i, nm in enumerate(self.cfg['names']):
             bd = self.cfg['bounds'][i] if (self.cfg.get('bounds') and algo in BOUNDED) else None
             v = x[nm]
-            rel = abs(g[nm]) * max(1.0, abs(v)) / max(1.0, abs(f))
-            at_lo = bd and bd[0] is not None and abs(v - bd[0]) <= 1e-6 * max(1.0, abs(v))
-            at_hi = bd and bd[1] is not None and abs(v - bd[1]) <= 1e-6 * max(1.0, abs(v))
-            if at_hi:
-                ctx.probe('bound active at the returned estimates')
-                if g[nm] < -tol * max(1.0, abs(f)):
-                    ctx.fail('I07.stationary', f'[{algo}] {nm} sits at its upper bound but the likelihood increases inwards '
-                                               f'(dLL/d{nm}={g[nm]!r})')
-            elif at_lo:
-                ctx.probe('bound active at the returned estimates')
-                if g[nm] > tol * max(1.0, abs(f)):
-                    ctx.fail('I07.stationary', f'[{algo}] {nm} sits at its lower bound but the likelihood increases inwards '
-                                               f'(dLL/d{nm}={g[nm]!r})')
-            elif rel > tol:
-                ctx.fail('I07.stationary', f'[{algo}] convergence reported but dLL/d{nm}={g[nm]!r} at the estimates '
-                                           f'(relative {rel!r} > {tol!r})')
+            lo = bd[0] if (bd and bd[0] is not None) else -math.inf
+            hi = bd[1] if (bd and bd[1] is not None) else math.inf
+            # projected-gradient measure (the criterion bound-constrained algorithms report): how far
+            # a unit ascent step could move inside the bounds
+            step = min(max(v + g[nm], lo), hi) - v
+            rel = abs(step) * max(1.0, abs(v)) / max(1.0, abs(f))
+            if step != g[nm]:
+                ctx.probe('bound active (or nearly) at the returned estimates')
+            if rel > tol:
+                ctx.fail('I07.stationary', f'[{algo}] convergence reported but the likelihood still increases along {nm}: '
+                                           f'dLL/d{nm}={g[nm]!r}, feasible ascent step {step!r} (relative {rel!r} > {tol!r}), '
+                                           f'bounds {bd}')
 
     def estimate_all(self):
         ctx = self.ctx
@@ -555,7 +551,7 @@ class Session:
         for grp in groups:
             if len(grp) >= 2:
                 vals = [res[a] for a in grp]
-                if max(vals) - min(vals) > 1e-5 * max(1.0, abs(max(vals))):
+                if max(vals) - min(vals) > (2e-3 if self.active_planned else 1e-5) * max(1.0, abs(max(vals))):
                     lo = min(grp, key=lambda a: res[a])
                     hi = max(grp, key=lambda a: res[a])
                     ctx.fail('I07.agree', f'algorithms disagree on the maximum: {hi}={res[hi]!r}, {lo}={res[lo]!r}')
